@@ -1,6 +1,6 @@
 """Internet Relay Chat message"""
 
-from .utils import parsemsg
+from .utils import joinprefix, parsemsg
 
 
 class Error(Exception):
@@ -29,9 +29,13 @@ class Message:
         if len(s) > 512:
             raise Error('Message must not be longer than 512 characters')
 
-        prefix, command, args = parsemsg(s)
+        (nick, user, host), command, args = parsemsg(s)
 
-        return Message(command, *args, prefix=prefix)
+        # parsemsg returns the prefix in its parsed form (nick, user, host)
+        prefix = nick if user is None and host is None else joinprefix(nick, user, host)
+        kwargs = {} if prefix is None else {'prefix': prefix}
+
+        return Message(command, *args, **kwargs)
 
     def __bytes__(self):
         return str(self).encode(self.encoding)
